@@ -390,6 +390,84 @@ def noreplay_pause_probe():
     return bad
 
 
+# ----------------------------------------------------------------------------- C11: a re-trip inside the suspender's settle time
+def settle_time_probe():
+    """a suspender with a settle time (sleep > 0): trip, back to nominal, trip AGAIN before the settle time is over, nominal
+    for good later.  The plan stays held until the condition has been released for the whole settle time: nothing of the
+    user's plan and no `_resume_from_suspender` runs while the signal is bad.  (Real time: margins of >= 0.3 s between the
+    scripted signal changes and the deadlines they race with.)"""
+    import threading
+    import time
+
+    from bluesky.suspenders import SuspendBoolHigh
+    from bluesky.utils import Msg
+
+    class Sig:
+        def __init__(self):
+            self.name, self.value, self.subs = "sig", 0, []
+
+        def get(self):
+            return self.value
+
+        def subscribe(self, cb, event_type=None, run=True):
+            self.subs.append(cb)
+            if run:
+                cb(value=self.value, old_value=self.value, timestamp=0.0)
+            return len(self.subs)
+
+        def clear_sub(self, cb, event_type=None):
+            self.subs = [c for c in self.subs if c is not cb]
+
+        def put(self, v):
+            old, self.value = self.value, v
+            for cb in list(self.subs):
+                cb(value=v, old_value=old, timestamp=0.0)
+
+    bad = []
+    sig = Sig()
+    RE, docs = _engine()
+    sus = SuspendBoolHigh(sig, sleep=1.0)
+    RE.install_suspender(sus)
+    log = []
+    t0 = [None]
+    timers = []
+    tripped_once = threading.Event()
+
+    def put(v):
+        sig.put(v)
+        if v == 1:
+            tripped_once.set()
+
+    def hook(msg):
+        if msg.command == "sleep" and t0[0] is None:
+            # the clock of the scenario starts when the plan reaches its long sleep (independent of how busy the machine is)
+            t0[0] = time.time()
+            for dt, v in ((0.3, 1), (0.7, 0), (1.1, 1), (2.2, 0)):
+                t = threading.Timer(dt, put, (v,))
+                t.daemon = True
+                t.start()
+                timers.append(t)
+            return
+        if t0[0] is not None:
+            log.append((round(time.time() - t0[0], 2), msg.command, sig.value, bool(sus.tripped), tripped_once.is_set()))
+
+    RE.msg_hook = hook
+    out = _run(RE, _listplan(Msg("open_run"), Msg("checkpoint"), Msg("null"), Msg("sleep", None, 1.5), Msg("null"), Msg("close_run")))
+    for t in timers:
+        t.join(5)
+    RE.remove_suspender(sus)
+    case = {"probe": "settle-time", "suspender": "SuspendBoolHigh(sleep=1.0)", "signal": [[0.3, 1], [0.7, 0], [1.1, 1], [2.2, 0]]}
+    if out[0] != "return":
+        bad.append(("settle-time:call-failed", f"{out[1]!r}", case))
+    wrong = [e for e in log if e[1] in ("_resume_from_suspender", "null", "close_run", "sleep") and e[4] and (e[2] == 1 or e[3])]
+    if wrong:
+        bad.append(("plan-resumed-while-the-suspender-is-tripped:re-trip-inside-the-settle-time", f"signal high 0.3-0.7 s and again 1.1-2.2 s, settle time 1.0 s: {wrong[0][1]!r} was processed at t={wrong[0][0]} s with signal={wrong[0][2]}, tripped={wrong[0][3]}", case))
+    resumed = [e for e in log if e[1] == "_resume_from_suspender"]
+    if resumed and resumed[-1][0] < 3.0:
+        bad.append(("suspension-released-before-the-settle-time-elapsed", f"last _resume_from_suspender at t={resumed[-1][0]} s; the signal has only been low since 2.2 s (settle time 1.0 s)", case))
+    return bad
+
+
 # ----------------------------------------------------------------------------- C16: configuration recorded by descriptors
 def configuration_probe():
     """(a) a device whose configuration KEY SET changes when it is configured (a setting that only exists in one mode): the
@@ -1411,6 +1489,50 @@ def relative_moves_probe():
             if got != want:
                 bad.append((f"relative-move-of-hinted-device:readback-{'first' if first else 'not-first'}-in-reading:{variant}", f"{variant} on a device without .position whose hinted readback (3.25) is {'the first' if first else 'NOT the first'} key of read() (a stale demand signal 0.0 is the other): set values {got}, expected {want}", {"probe": "relative-moves", "device": "hinted", "hinted_first": first, "variant": variant}))
 
+    # (d) a composite device AND one of its own components are moved under reset_positions_wrapper: both are commanded back
+    from bluesky.preprocessors import reset_positions_wrapper
+
+    class Axis:
+        def __init__(self, name, pos, parent=None):
+            self.name, self.position, self.parent = name, pos, parent
+
+        def set(self, value):
+            self.position = value
+            st = _Status()
+            st.finish(True)
+            return st
+
+        def read(self):
+            return {self.name: {"value": self.position, "timestamp": 0.0}}
+
+        def describe(self):
+            return {self.name: {"source": "sim", "dtype": "number", "shape": []}}
+
+        def read_configuration(self):
+            return {}
+
+        def describe_configuration(self):
+            return {}
+
+    for ending in ("success", "failure"):
+        changer = Axis("changer", 1)
+        fine = Axis("changer_x", 0.5, parent=changer)
+        RE, docs = _engine()
+        msgs = []
+        RE.msg_hook = msgs.append
+
+        def body(ending=ending):
+            yield Msg("set", changer, 3, group="g")
+            yield Msg("set", fine, 0.75, group="g")
+            yield Msg("wait", None, group="g")
+            if ending == "failure":
+                raise RuntimeError("plan failed")
+
+        _run(RE, reset_positions_wrapper(body(), [changer, fine]))
+        got_c, got_f = sets_on(msgs, changer), sets_on(msgs, fine)
+        if got_c != [3.0, 1.0] or got_f != [0.75, 0.5]:
+            bad.append((f"reset-skips-a-moved-component-of-a-moved-device:{ending}", f"reset_positions_wrapper over a composite device (1 -> 3) and its own component (0.5 -> 0.75), plan ends in {ending}: device sets {got_c} (expected [3, 1]), component sets {got_f} (expected [0.75, 0.5])", {"probe": "relative-moves", "device": "composite+component", "ending": ending}))
+
     for sp0 in (0, 0.0, 5.0, -2.0):
         for variant in ("mvr", "rel_scan"):
             m = Loc("loc", sp0, sp0 + 0.25)
@@ -1482,7 +1604,7 @@ def _run_call(f):
         return f()
 
 
-PROBES = {"configuration": configuration_probe, "monitor-options": monitor_options_probe, "wrapper-response": wrapper_response_probe, "inplan-subscription": inplan_subscription_probe, "equal-instances": equal_instances_probe, "raising-state-hook": raising_state_hook_probe, "replayed-group": replayed_group_probe, "noreplay-pause": noreplay_pause_probe, "second-call": second_call_probe, "nonresumable-wrapper": nonresumable_wrapper_probe, "external-assets": external_assets_probe, "metadata-store": metadata_store_probe, "dying-subscriber": dying_subscriber_probe, "classic-flyer": classic_flyer_probe, "nonrewindable-region": nonrewindable_region_probe, "relative-moves": relative_moves_probe, "stale-deferred-pause": stale_deferred_pause_probe, "reused-message": reused_message_probe, "locate": locate_probe, "run-wrapper-exception": run_wrapper_exception_probe}
+PROBES = {"settle-time": settle_time_probe, "configuration": configuration_probe, "monitor-options": monitor_options_probe, "wrapper-response": wrapper_response_probe, "inplan-subscription": inplan_subscription_probe, "equal-instances": equal_instances_probe, "raising-state-hook": raising_state_hook_probe, "replayed-group": replayed_group_probe, "noreplay-pause": noreplay_pause_probe, "second-call": second_call_probe, "nonresumable-wrapper": nonresumable_wrapper_probe, "external-assets": external_assets_probe, "metadata-store": metadata_store_probe, "dying-subscriber": dying_subscriber_probe, "classic-flyer": classic_flyer_probe, "nonrewindable-region": nonrewindable_region_probe, "relative-moves": relative_moves_probe, "stale-deferred-pause": stale_deferred_pause_probe, "reused-message": reused_message_probe, "locate": locate_probe, "run-wrapper-exception": run_wrapper_exception_probe}
 
 
 def add_to(res, names):
